@@ -126,7 +126,14 @@ def _work_rand(args):
                         ok &= abs(float(rp2.distance_to(rq, B)) - d) <= tol
                     e['shift_inv'] = bool(ok)
                     e['inv_flag'] = bool(abs(float(rp.distance_to(rq, Ibuf, inv=True)) - d) <= tol)
-                    e['res_point'] = bool(abs(float(rp.distance_to(np.array(q), B)) - d) <= tol)
+                    # one point array (the documented float array) kept by the caller and used for several queries
+                    qa = np.array(q, dtype=float)
+                    okp = abs(float(rp.distance_to(qa, B)) - d) <= tol
+                    okp &= abs(float(rp.distance_to(qa, B)) - d) <= tol
+                    okp &= abs(float(rp.distance_to(qa, Ibuf, inv=True)) - d) <= tol
+                    okp &= abs(float(rp.distance_to(qa)) - float(rp.distance_to(rq))) <= tol
+                    okp &= bool((qa == np.array(q, dtype=float)).all())
+                    e['res_point'] = bool(okp)
                     e['value'] = d
                 except Exception as exc:
                     e = {'op': 'dist', 'ortho': bool(ortho), 'finite': False, 'min_image': False, 'le_plain': False,
@@ -161,8 +168,9 @@ def check(run):
                  if len(run.samples) < 3 else None)
         run.traces += 1
         try:
-            obs = {'residue': float(rp.distance_to(rq, B)), 'point': float(rp.distance_to(q, B)),
-                   'reverse': float(rq.distance_to(rp, B)),
+            qa = np.array(q, dtype=float)
+            obs = {'residue': float(rp.distance_to(rq, B)), 'point': float(rp.distance_to(qa, B)),
+                   'reverse': float(rq.distance_to(rp, B)), 'point_again': float(rp.distance_to(qa, B)),
                    'inverse_flag': float(rp.distance_to(rq, np.linalg.inv(B), inv=True))}
         except Exception as exc:
             run.violation({'check': 'exception', 'exception': type(exc).__name__},
